@@ -78,6 +78,13 @@ Definition mode_table : list Z :=
      [false; true]) [MRead; MWrite; MOverwrite]
   ++ flat_map (fun m => flat_map (fun g => [if removeable m g then 1 else 0]%Z) [false; true]) [MRead; MWrite; MOverwrite].
 
+(* outcome of the PT-TEMPO entry points on a named file, and whether remove() is granted afterwards:
+   for unique, overwrite, exists in {false, true}^3 (in this order, exists fastest) *)
+Definition api_table : list Z :=
+  flat_map (fun u => flat_map (fun o => flat_map (fun e =>
+     [match open_mode (api_mode u o) e with Created => 0 | Replaced => 1 | OpenedExisting => 2 | Refused => 3 end;
+      if removeable (api_mode u o) true then 1 else 0]%Z) [false; true]) [false; true]) [false; true].
+
 (* ---- correlations (C07) ------------------------------------------------------ *)
 From OQ Require Import Lib.PySem Model.Corr Model.SuperOps.
 (* value of one ordered n-time correlation: the first n-1 operators enter as pre-measurement
